@@ -135,6 +135,43 @@ pub struct FnInfo {
     pub ext_calls: Vec<String>,
     pub writes: Vec<String>,
     pub own_writes: Vec<String>,
+    // implicit drops (graph.rs, "Implicit drops")
+    /// scanned type names occurring BY VALUE in the return type (`Self`, `Self::Assoc` resolved)
+    pub ret_owned: Vec<String>,
+    /// the return type hides a type (`impl Trait`, `dyn Trait`, `<T as Tr>::X`, a type macro)
+    pub ret_opaque: bool,
+    /// head of the return type when it is a plain path type (`Self` resolved)
+    pub ret_head: Option<String>,
+    /// scanned/other type names occurring by value in the parameters (a by-value `self` included)
+    pub params_owned: Vec<String>,
+    /// why the body has an edge to `drop_glue(T)`
+    pub drop_sites: Vec<String>,
+    /// values whose implicit drop is a write into fresh memory (results of `LruCache::clone`)
+    pub fresh_drops: Vec<String>,
+}
+
+/// A type definition of the scanned files as far as dropping is concerned.
+#[derive(Clone, Debug, Default)]
+pub struct TypeDef {
+    pub name: String,
+    pub kind: String, // struct | enum | alias
+    pub file: String,
+    pub line: usize,
+    /// type names occurring by value in the fields (not behind `&`, `*`, `NonNull`, `PhantomData`, `fn`)
+    pub owned: Vec<String>,
+    /// every type name occurring in the fields, also behind pointers
+    pub any: Vec<String>,
+    /// a field hides its type (`dyn Trait`, `impl Trait`, ...)
+    pub opaque: bool,
+}
+
+/// `drop_glue(T)`: what runs when a value of type `T` is dropped.
+#[derive(Clone, Debug, Default)]
+pub struct GlueNode {
+    pub ty: String,
+    pub node: String,
+    pub drop_impl: Option<String>,
+    pub callees: Vec<String>,
 }
 
 #[derive(Clone, Debug)]
@@ -151,6 +188,16 @@ pub struct CloneAnalysis {
     pub fresh_sites: Vec<String>,
     pub residual: Vec<String>,
     pub fresh_locals: Vec<String>,
+    /// callee candidates of the residual sites: their implicit drops are attributed to the source half
+    pub residual_callees: Vec<String>,
+    /// why the source half has an edge to `drop_glue(T)`
+    pub src_drop_sites: Vec<String>,
+    /// callees of the source half whose return type hides a type
+    pub src_opaque_calls: Vec<String>,
+    /// the `return`/tail expressions of clone
+    pub return_sites: Vec<String>,
+    /// every `return`/tail expression of clone is a fresh local or a plain constructor call
+    pub returns_fresh: bool,
 }
 
 pub struct Tables {
@@ -160,6 +207,8 @@ pub struct Tables {
     pub fns: Vec<FnInfo>,
     pub sigs: Vec<SigRow>,
     pub clone: CloneAnalysis,
+    pub typedefs: Vec<TypeDef>,
+    pub glue: Vec<GlueNode>,
     pub warnings: Vec<String>,
 }
 
@@ -321,6 +370,86 @@ fn dedup(v: Vec<String>) -> Vec<String> {
     v.into_iter().filter(|x| seen.insert(x.clone())).collect()
 }
 
+/// Type names that occur BY VALUE in a type: dropping a value of the type may drop a value of each
+/// of them.  Not by value: behind `&`, `&mut`, `*const`, `*mut`, `NonNull`, `PhantomData`, `fn(..)`.
+/// Everything else counts (`Option`, `Result`, tuples, arrays, `Box`, `Vec`, `Rc`, `MaybeUninit`,
+/// `ManuallyDrop`, any generic argument of any path) - an over-approximation.
+#[derive(Default, Clone, Debug)]
+pub struct Owned {
+    pub idents: Vec<String>,
+    pub opaque: bool,
+}
+
+pub const NON_OWNING_HEADS: &[&str] = &["PhantomData", "NonNull"];
+
+pub fn owned_idents(ty: &syn::Type, self_ty: Option<&str>, assoc: &BTreeMap<String, syn::Type>, out: &mut Owned, depth: usize) {
+    use syn::Type::*;
+    if depth > 12 {
+        out.opaque = true;
+        return;
+    }
+    match ty {
+        Ptr(_) | Reference(_) | BareFn(_) | Never(_) | Infer(_) => {}
+        Path(p) => {
+            if p.qself.is_some() {
+                out.opaque = true; // <T as Trait>::Assoc
+                return;
+            }
+            if p.path.segments.len() == 2 && p.path.segments[0].ident == "Self" {
+                match assoc.get(&p.path.segments[1].ident.to_string()) {
+                    Some(t) => owned_idents(t, self_ty, assoc, out, depth + 1),
+                    None => out.opaque = true,
+                }
+                return;
+            }
+            let Some(last) = p.path.segments.last() else { return };
+            let id = last.ident.to_string();
+            if NON_OWNING_HEADS.contains(&id.as_str()) {
+                return;
+            }
+            for seg in &p.path.segments {
+                if let syn::PathArguments::AngleBracketed(ab) = &seg.arguments {
+                    for a in &ab.args {
+                        match a {
+                            syn::GenericArgument::Type(t) => owned_idents(t, self_ty, assoc, out, depth + 1),
+                            syn::GenericArgument::AssocType(t) => owned_idents(&t.ty, self_ty, assoc, out, depth + 1),
+                            _ => {}
+                        }
+                    }
+                }
+            }
+            if id == "Self" {
+                match self_ty {
+                    Some(t) => out.idents.push(t.to_string()),
+                    None => out.opaque = true,
+                }
+            } else {
+                out.idents.push(id);
+            }
+        }
+        Tuple(t) => {
+            for e in &t.elems {
+                owned_idents(e, self_ty, assoc, out, depth + 1);
+            }
+        }
+        Array(a) => owned_idents(&a.elem, self_ty, assoc, out, depth + 1),
+        Slice(a) => owned_idents(&a.elem, self_ty, assoc, out, depth + 1),
+        Paren(a) => owned_idents(&a.elem, self_ty, assoc, out, depth + 1),
+        Group(a) => owned_idents(&a.elem, self_ty, assoc, out, depth + 1),
+        _ => out.opaque = true, // impl Trait, dyn Trait, macros, verbatim
+    }
+}
+
+/// head of a type seen through `&`/`&mut` (for typed receivers); bool = it was behind a reference
+pub fn head_through_refs(ty: &syn::Type) -> Option<(String, bool)> {
+    match ty {
+        syn::Type::Reference(r) => head_through_refs(&r.elem).map(|(h, _)| (h, true)),
+        syn::Type::Paren(p) => head_through_refs(&p.elem),
+        syn::Type::Group(p) => head_through_refs(&p.elem),
+        _ => type_head(ty).map(|h| (h, false)),
+    }
+}
+
 // ------------------------------------------------------------------------------------------------
 // pass 1: structs, marker impls, function declarations
 // ------------------------------------------------------------------------------------------------
@@ -329,6 +458,7 @@ pub struct FnDecl {
     pub info: FnInfo,
     pub body: syn::Block,
     pub local_names: Vec<String>,
+    pub sig: syn::Signature,
 }
 
 struct Collector {
@@ -338,6 +468,7 @@ struct Collector {
     fns: Vec<FnDecl>,
     warnings: Vec<String>,
     struct_generics: BTreeMap<String, (Vec<String>, Vec<String>)>,
+    typedefs: Vec<TypeDef>,
 }
 
 fn generics_lts(g: &syn::Generics) -> Vec<String> {
@@ -411,7 +542,22 @@ impl Collector {
                 if is_cfg_test(&s.attrs) {
                     return;
                 }
+                let tys: Vec<&syn::Type> = s.fields.iter().map(|f| &f.ty).collect();
+                self.typedef(&s.ident, "struct", &s.generics, &tys);
                 self.strukt(s)
+            }
+            syn::Item::Enum(e) => {
+                if is_cfg_test(&e.attrs) {
+                    return;
+                }
+                let tys: Vec<&syn::Type> = e.variants.iter().flat_map(|v| v.fields.iter().map(|f| &f.ty)).collect();
+                self.typedef(&e.ident, "enum", &e.generics, &tys);
+            }
+            syn::Item::Type(t) => {
+                if is_cfg_test(&t.attrs) {
+                    return;
+                }
+                self.typedef(&t.ident, "alias", &t.generics, &[&*t.ty]);
             }
             syn::Item::Impl(i) => {
                 if is_cfg_test(&i.attrs) {
@@ -424,7 +570,7 @@ impl Collector {
                     return;
                 }
                 let info = self.fn_info(&f.sig, &f.vis, &f.attrs, None, None, &syn::Generics::default(), &BTreeMap::new());
-                self.fns.push(FnDecl { info, body: (*f.block).clone(), local_names: graph::param_locals(&f.sig.inputs) });
+                self.fns.push(FnDecl { info, body: (*f.block).clone(), local_names: graph::param_locals(&f.sig.inputs), sig: f.sig.clone() });
             }
             syn::Item::Mod(m) => {
                 if is_cfg_test(&m.attrs) {
@@ -445,6 +591,36 @@ impl Collector {
             }
             _ => {}
         }
+    }
+
+    /// what dropping a value of this type may drop (fields by value); its own type parameters are
+    /// user types and are left out
+    fn typedef(&mut self, ident: &syn::Ident, kind: &str, generics: &syn::Generics, tys: &[&syn::Type]) {
+        let tparams: Vec<String> = generics.type_params().map(|t| t.ident.to_string()).collect();
+        let mut owned = Owned::default();
+        let mut any = TypeFacts::default();
+        for t in tys {
+            owned_idents(t, Some(&ident.to_string()), &BTreeMap::new(), &mut owned, 0);
+            type_facts(t, &mut any);
+        }
+        if owned.opaque {
+            self.warnings.push(format!(
+                "{}:{}: {} `{}` owns a value of a hidden type (dyn/impl/projection): its drop glue is taken to run every Drop impl of the scanned files",
+                self.file,
+                line_of(ident),
+                kind,
+                ident
+            ));
+        }
+        self.typedefs.push(TypeDef {
+            name: ident.to_string(),
+            kind: kind.to_string(),
+            file: self.file.clone(),
+            line: line_of(ident),
+            owned: dedup(owned.idents).into_iter().filter(|i| !tparams.contains(i)).collect(),
+            any: dedup(any.idents).into_iter().filter(|i| !tparams.contains(i)).collect(),
+            opaque: owned.opaque,
+        });
     }
 
     fn strukt(&mut self, s: &syn::ItemStruct) {
@@ -517,7 +693,7 @@ impl Collector {
                         continue;
                     }
                     let info = self.fn_info(&f.sig, &f.vis, &f.attrs, Some(self_name.clone()), trait_name.clone(), &i.generics, &assoc);
-                    self.fns.push(FnDecl { info, body: f.block.clone(), local_names: graph::param_locals(&f.sig.inputs) });
+                    self.fns.push(FnDecl { info, body: f.block.clone(), local_names: graph::param_locals(&f.sig.inputs), sig: f.sig.clone() });
                 }
                 syn::ImplItem::Macro(m) => {
                     self.warnings.push(format!("{}:{}: impl item macro `{}` not expanded", self.file, line_of(m), ts(&m.mac.path)));
@@ -652,6 +828,7 @@ impl Collector {
         let mut tparams = tparam_bounds(impl_generics);
         tparams.extend(tparam_bounds(&sig.generics));
         let mut irregular = false;
+        let mut p_owned = Owned::default();
 
         // receiver
         let mut recv = Recv::None;
@@ -706,6 +883,7 @@ impl Collector {
                         syn::Type::Reference(r) => type_head(&r.elem).as_deref() == Some(CACHE_TYPE),
                         _ => false,
                     };
+                    owned_idents(&pt.ty, self_type.as_deref(), assoc, &mut p_owned, 0);
                     params.push(ParamInfo { name: ts(&pt.pat), ty: ts(&pt.ty), plain, is_cache_ref });
                 }
             }
@@ -726,13 +904,28 @@ impl Collector {
             }
         }
 
+        // a by-value receiver (`self`, `mut self`, `self: Box<Self>`, ...) is an owned value of the impl'd type
+        if recv == Recv::Val {
+            match &self_type {
+                Some(t) => p_owned.idents.push(t.clone()),
+                None => p_owned.opaque = true,
+            }
+        }
         // return type carriers
         let mut raw: Vec<(String, String)> = vec![]; // (what, lifetime as written or "'_")
         let mut ret_odd = false;
+        let mut r_owned = Owned::default();
+        let mut ret_head = None;
         let ret = match &sig.output {
             syn::ReturnType::Default => "()".to_string(),
             syn::ReturnType::Type(_, t) => {
                 collect_carriers(t, &self.struct_generics, assoc, &mut raw, &mut ret_odd, 0);
+                owned_idents(t, self_type.as_deref(), assoc, &mut r_owned, 0);
+                ret_head = match head_through_refs(t) {
+                    Some((h, false)) if h == "Self" => self_type.clone(),
+                    Some((h, false)) => Some(h),
+                    _ => None,
+                };
                 ts(t)
             }
         };
@@ -793,6 +986,12 @@ impl Collector {
             ext_calls: vec![],
             writes: vec![],
             own_writes: vec![],
+            ret_owned: dedup(r_owned.idents),
+            ret_opaque: r_owned.opaque,
+            ret_head,
+            params_owned: dedup(p_owned.idents),
+            drop_sites: vec![],
+            fresh_drops: vec![],
         }
     }
 }
@@ -919,6 +1118,7 @@ fn main() {
     let mut impls = vec![];
     let mut decls: Vec<FnDecl> = vec![];
     let mut warnings = vec![];
+    let mut typedefs: Vec<TypeDef> = vec![];
     // two sweeps so that struct generics are known before impls are read, whatever the file order
     let mut parsed = vec![];
     for f in files {
@@ -940,7 +1140,7 @@ fn main() {
     }
     let mut struct_generics = BTreeMap::new();
     for (f, p) in &parsed {
-        let mut c = Collector { file: f.clone(), structs: vec![], impls: vec![], fns: vec![], warnings: vec![], struct_generics: BTreeMap::new() };
+        let mut c = Collector { file: f.clone(), structs: vec![], impls: vec![], fns: vec![], warnings: vec![], struct_generics: BTreeMap::new(), typedefs: vec![] };
         for it in &p.items {
             if let syn::Item::Struct(_) = it {
                 c.item(it);
@@ -949,10 +1149,11 @@ fn main() {
         struct_generics.extend(c.struct_generics);
     }
     for (f, p) in &parsed {
-        let mut c = Collector { file: f.clone(), structs: vec![], impls: vec![], fns: vec![], warnings: vec![], struct_generics: struct_generics.clone() };
+        let mut c = Collector { file: f.clone(), structs: vec![], impls: vec![], fns: vec![], warnings: vec![], struct_generics: struct_generics.clone(), typedefs: vec![] };
         for it in &p.items {
             c.item(it);
         }
+        typedefs.extend(c.typedefs);
         structs.extend(c.structs);
         impls.extend(c.impls);
         decls.extend(c.fns);
@@ -979,7 +1180,7 @@ fn main() {
 
     // pass 2: bodies
     graph::set_plain_ctors(&decls);
-    let clone = graph::analyse(&mut decls, &names, &mut warnings);
+    let (clone, glue) = graph::analyse(&mut decls, &names, &typedefs, &mut warnings);
 
     // signature rows
     let iter_structs: Vec<String> = structs.iter().filter(|s| s.file == "src/iter.rs").map(|s| s.name.clone()).collect();
@@ -1005,6 +1206,8 @@ fn main() {
         fns: decls.into_iter().map(|d| d.info).collect(),
         sigs,
         clone,
+        typedefs,
+        glue,
         warnings,
     };
 
@@ -1026,12 +1229,15 @@ fn main() {
     let mut summary = String::new();
     let _ = write!(
         summary,
-        "sigdump: {} structs, {} marker impls, {} signature rows, {} functions, {} with a write primitive, {} warnings",
+        "sigdump: {} structs, {} marker impls, {} signature rows, {} functions, {} with a write primitive, {} call edges, {} drop-glue nodes, {} implicit-drop edges, {} warnings",
         tables.structs.len(),
         tables.marker_impls.len(),
         tables.sigs.len(),
         tables.fns.len(),
         tables.fns.iter().filter(|f| !f.writes.is_empty()).count(),
+        tables.fns.iter().map(|f| f.callees.iter().filter(|c| !c.starts_with(graph::GLUE_PREFIX)).count()).sum::<usize>(),
+        tables.glue.len(),
+        tables.fns.iter().map(|f| f.callees.iter().filter(|c| c.starts_with(graph::GLUE_PREFIX)).count()).sum::<usize>(),
         tables.warnings.len()
     );
     println!("{}", summary);
